@@ -491,7 +491,7 @@ def mgr_rejections(ctx: Ctx, pid: str):
     # cyclic priorities: order = topological sort of the priority graph (raises on cycles); all prioritised relations reach it
     cg, cgr, pgr, porder = _cg(ctx, rule)
     g = ctx.__dict__["_topo_arg"]
-    ctx.check(mentions(g, pgr), f"{pid}.cyclic-priorities", cg.site, "_conflict_graph.toposort", found=tstr(g),
+    ctx.check(pgr is not None and mentions(g, pgr), f"{pid}.cyclic-priorities", cg.site, "_conflict_graph.toposort", found=tstr(g),
               required="the order is a topological sort of the priority graph (networkx raises NetworkXUnfeasible on a cycle)")
     # def order warning raise for schedule_before defined afterwards (documented rejection)
     # (not part of the property; no obligation)
